@@ -1,0 +1,11 @@
+//go:build verif
+
+package croncontroller
+
+import "k8s.io/client-go/util/workqueue"
+
+// VerifSetQueue replaces the workqueue of the Context.
+func (c *Context) VerifSetQueue(q workqueue.RateLimitingInterface) { c.queue = q }
+
+// VerifNewEnqueueHandler returns the production EnqueueHandler.
+func VerifNewEnqueueHandler(c *Context) EnqueueHandler { return newEnqueueHandler(c) }
